@@ -192,6 +192,7 @@ func (m *MapPollard) Modify(adds []Leaf, delHashes []Hash, proof Proof) error {
 	if err != nil {
 		return err
 	}
+	verifPoint("Modify.between-remove-and-add")
 
 	err = m.add(adds)
 	if err != nil {
@@ -918,6 +919,7 @@ func (m *MapPollard) Undo(numAdds uint64, proof Proof, hashes, origPrevRoots []H
 	if err != nil {
 		return fmt.Errorf("Undo errored while undoing added leaves. %v", err)
 	}
+	verifPoint("Undo.between-undoAdd-and-undoDeletion")
 
 	err = m.undoDeletion(proof, hashes)
 	if err != nil {
@@ -1161,6 +1163,8 @@ func (m *MapPollard) ingest(delHashes []Hash, proof Proof) error {
 		}
 	}
 
+	verifPoint("ingest.after-proof-hashes")
+
 	// Calculate the intermediate positions and their hashes.
 	intermediate, _, err := calculateHashes(m.NumLeaves, delHashes, proof)
 	if err != nil {
@@ -1226,6 +1230,7 @@ func (m *MapPollard) Prune(hashes []Hash) error {
 		// Mark the remember field as false and put that leaf in the map.
 		leaf.Remember = false
 		m.Nodes.Put(pos, leaf)
+		verifPoint("Prune.after-uncache")
 
 		// Call prune positions until the root.
 		for row := DetectRow(pos, m.TotalRows); row <= TreeRows(m.NumLeaves); row++ {
@@ -1521,6 +1526,7 @@ func (m *MapPollard) Read(r io.Reader) (int, error) {
 	}
 	totalBytes += bytes
 	nodeCount := binary.LittleEndian.Uint64(buf[:])
+	verifPoint("Read.after-cached-leaves")
 
 	var leafBuf [33]byte
 	for i := 0; i < int(nodeCount); i++ {
